@@ -151,3 +151,6 @@ int main() {
   WC::Utfs();
   return 0;
 }
+
+// positive example for the zero-expected rule C11 R11.3 (never called)
+namespace W { inline std::string_view positive_example_cstr_view(const std::string& s) { return std::string_view(s.c_str()); } }
